@@ -32,10 +32,13 @@ def alt_sync():
     if not ALT:
         return
     os.makedirs(ALT, exist_ok=True)
-    olds = sorted(glob.glob(os.path.join(os.path.dirname(ALT), '*')), key=os.path.getmtime)
-    for d in olds[:-6]:
-        if d != ALT:
-            shutil.rmtree(d, ignore_errors=True)
+    os.utime(ALT, None)
+    for d in glob.glob(os.path.join(os.path.dirname(ALT), '*')):     # prune copies unused for 3 hours
+        try:
+            if d != ALT and time.time() - os.path.getmtime(d) > 3 * 3600:
+                shutil.rmtree(d, ignore_errors=True)
+        except OSError:
+            pass
     with Lock('alt.' + os.path.basename(ALT)):
         os.makedirs(ORGEN, exist_ok=True)
         subprocess.run(['rsync', '-a', '--exclude', 'gen/Gen_*', '--exclude', 'Makefile*', '--exclude', '_CoqProject',
@@ -355,8 +358,12 @@ def count_supporting(rel):
         txt = re.sub(r'\(\*.*?\*\)', '', read(os.path.join(COQ, f)), flags=re.S)
         if f != rel:
             n += len(re.findall(r'\b(Qed|Defined)\s*\.', txt))
-        for m in re.finditer(r'(?:From\s+Clip\s+)?Require\s+(?:Import|Export)?\s*([^.]*(?:\.[A-Za-z_][^.\s]*)*)\s*\.', txt):
-            for mod in m.group(1).split():
+        for m in re.finditer(r'Require\s+(?:Import\s+|Export\s+)?', txt):
+            rest = txt[m.end():m.end() + 2000]
+            e = re.search(r'\.(\s|$)', rest)
+            if not e:
+                continue
+            for mod in rest[:e.start()].split():
                 mod = mod.replace('Clip.', '')
                 if '.' in mod:
                     todo.append(mod.replace('.', '/') + '.v')
